@@ -59,6 +59,11 @@ def main():
     if a.only:
         names = [n for n in names if n in a.only]
     rows = []
+    superseded = [n for n in names if "superseded" in json.load(open(os.path.join(VERIF, "seeded", n, "meta.json")))]
+    names = [n for n in names if n not in superseded]
+    for n in superseded:
+        rows.append((n, json.load(open(os.path.join(VERIF, "seeded", n, "meta.json")))["property"],
+                     "(superseded by a fix: no longer breaks the property, see meta.json)", ""))
     with ThreadPoolExecutor(a.jobs) as ex:
         for name, meta, res in ex.map(lambda n: run_one(n, a.tier, a.all_checks), names):
             if "error" in res:
